@@ -35,7 +35,8 @@ def last_rc(run) -> int:
 
 
 def side(run):
-    return {"state": run["final_state"], "disk": disk_ev(run["disk"]), "rc": last_rc(run), "dup": run.get("dups", [])}
+    return {"state": run["final_state"], "disk": disk_ev(run["disk"]), "rc": last_rc(run), "dup": run.get("dups", []),
+            "globprod": run.get("globprod", [])}
 
 
 def executed_steps(events):
